@@ -22,7 +22,7 @@ LEVEL_TEXT = ("Held on every generated problem of the run: methods {default, exa
               "uppermost, upper-case spellings, lsymeig/usymeig} x designed generalised spectra {separated, clustered 1e-5/1e-6, exactly "
               "degenerate groups straddling or inside the cut, all-negative, all-positive, free} x {float64, complex128 on dense paths}; "
               "svd over tall/wide/square operators, k in 1..min(m,n). Bounds: n<=10 dense / <=40 davidson (quick), <=80 (thorough), "
-              "cond(M)<=10, |eig|<=~12, sigma in [0.1,10].")
+              "cond(M)<=10, |eig|<=~20, sigma in [0.1,10].")
 LEVEL_NOTE = ("Trusts scipy.linalg.eigh (LAPACK sygvd/hegvd) and torch.linalg.svdvals on the dense shadow; tolerances are "
               "C*eps*n*|A|*cond(M) for dense paths and 10*sqrt(n)*min_eps for davidson (its own stopping test), see ASSUMPTIONS.")
 RULE = ("seeded sampling over method x M x operator kind x batch pattern x n x neig x mode spelling/entry point x spectrum kind x dtype "
@@ -31,7 +31,7 @@ RULE = ("seeded sampling over method x M x operator kind x batch pattern x n x n
         "(>=2 Rayleigh-Ritz steps counted at the internal slicing function)")
 MIN_NONTRIVIAL = {"quick": 500, "thorough": 6000}
 ASSUMPTIONS = [
-    "M = Q diag(mu) Q^H with mu in [1, kappa_M], kappa_M <= 10; generalised eigenvalues designed in [-12, 12]",
+    "M = Q diag(mu) Q^H with mu in [1, kappa_M], kappa_M <= 10; generalised eigenvalues designed in [-20, 20]",
     "distinct eigenvalue groups are >= 0.1 apart (designed spectra); members of a cluster are 1e-5 / 1e-6 / 0 apart; 'free' spectra "
     "(A and M with independent batch shapes) have uncontrolled gaps: there only groups isolated by >= 0.05 are compared as subspaces",
     "individual eigenvectors are never compared: only eigenvalues, residual, M-orthonormality and the M-orthogonal projector onto complete groups",
@@ -72,7 +72,7 @@ def is_low(mode):
 def cases(seed, tier):
     out = []
     quick = tier == "quick"
-    N = 1000 if quick else 15000
+    N = 6000 if quick else 120000
     dense_sizes = [1, 2, 3, 4, 5, 6, 8, 10]
     dav_sizes = [2, 5, 8, 12, 20, 30, 40] if quick else [2, 5, 8, 12, 20, 30, 40, 60, 80]
     for i in range(N):
@@ -106,8 +106,23 @@ def cases(seed, tier):
         if dav:
             d["min_eps"] = rng.choice([None, None, 1e-9])
             d["v_init"] = rng.choice([None] * 6 + ["rand", "eye"])
+            # half of the larger problems: selection separated from the rest of the spectrum, so that the (unpreconditioned)
+            # iteration meets its residual test before the subspace is the whole space
+            d["biggap"] = rng.choice([0, 4, 8]) if n >= 12 else 0
         out.append(d)
-    NS = 300 if quick else 4000
+    # directed: every broadcastable batch pattern of A and M for every method (exhaustive table, two modes)
+    k = 0
+    for (ba, bm) in ALL_PAIRS:
+        for method in [None, "exacteig", "custom_exacteig", "davidson"]:
+            for mode in ("lowest", "uppermost"):
+                n = 6 if method != "davidson" else 9
+                out.append({"group": "symeig", "directed": "batchgrid", "seed": sub_seed(seed, "c05b", k), "method": method, "n": n,
+                            "mode": mode, "neig": 1 + k % 4, "neig_none": False, "withM": True, "spec": "free", "straddle": False,
+                            "dtype": "float64" if (method == "davidson" or k % 3) else "complex128",
+                            "opA": OPKINDS_A[k % len(OPKINDS_A)], "opM": OPKINDS_M[k % len(OPKINDS_M)], "kappaM": 5.0,
+                            "batch": [list(ba), list(bm)], "min_eps": None, "v_init": None})
+                k += 1
+    NS = 1500 if quick else 30000
     for i in range(NS):
         rng = random.Random(sub_seed(seed, "c05v", i))
         d = {"group": "svd", "seed": sub_seed(seed, "c05vs", i)}
@@ -141,8 +156,9 @@ def _partition(k, rng):
     return sizes
 
 
-def design_spectrum(n, neig, low, spec, straddle, rng):
-    """sorted generalised eigenvalues (python floats) + group sizes; groups >= 0.1 apart, members `spread` apart"""
+def design_spectrum(n, neig, low, spec, straddle, rng, biggap=0.0):
+    """sorted generalised eigenvalues (python floats) + group sizes; groups >= 0.1 apart, members `spread` apart;
+    `biggap` > 0 separates the groups touched by the selection from the rest by that much (fast davidson convergence)"""
     cut = neig if low else n - neig
     spread = {"clus5": 1e-5, "clus6": 1e-6, "degen": 0.0}.get(spec)
     straddled = False
@@ -163,10 +179,21 @@ def design_spectrum(n, neig, low, spec, straddle, rng):
     gmax = max(0.2, min(1.0, 8.0 / n))
     vals = []
     c = 0.0
+    # index of the group after which the big gap goes
+    ends, e = [], 0
     for s in sizes:
+        e += s
+        ends.append(e)
+    if low:
+        jgap = next((j for j, e in enumerate(ends) if e >= cut), None)
+    else:
+        jgap = next((j for j, e in enumerate(ends) if e > cut), 0) - 1
+    for j_, s in enumerate(sizes):
         for j in range(s):
             vals.append(c + j * (spread or 0.0))
         c = vals[-1] + rng.uniform(0.1, gmax) + 1e-4
+        if biggap and j_ == jgap:
+            c += biggap
     if spec == "neg":
         shift = -vals[-1] - rng.uniform(0.5, 2.0)
     elif spec == "pos":
@@ -205,7 +232,8 @@ def build_pair(desc, rng, tgen, dt):
         nb = int(np.prod(BA)) if BA else 1
         mats = []
         for _ in range(nb):
-            vals, sizes, _ = design_spectrum(n, desc["neig"], low, rng.choice(["sep", "neg", "pos"]), False, rng)
+            vals, sizes, _ = design_spectrum(n, desc["neig"], low, rng.choice(["sep", "neg", "pos"]), False, rng,
+                                             float(desc.get("biggap") or 0.0))
             q = gen.rand_unitary(n, (), dt, tgen)
             lam = torch.tensor(vals, dtype=rdt).to(dt)
             mats.append(herm((q * lam) @ q.transpose(-2, -1).conj()))
@@ -219,7 +247,7 @@ def build_pair(desc, rng, tgen, dt):
     Mfull = M.expand(*BA, n, n).reshape(nb, n, n) if M is not None else None
     mats = []
     for b in range(nb):
-        vals, sizes, straddled = design_spectrum(n, desc["neig"], low, spec, desc["straddle"], rng)
+        vals, sizes, straddled = design_spectrum(n, desc["neig"], low, spec, desc["straddle"], rng, float(desc.get("biggap") or 0.0))
         info["straddled"] = info["straddled"] or straddled
         q = gen.rand_unitary(n, (), dt, tgen)
         lam = torch.tensor(vals, dtype=rdt).to(dt)
@@ -274,9 +302,11 @@ def reach_spies(log):
         return _take_eigpairs
 
     def w_qr(orig):
-        def tallqr(V, MV=None):
-            log["qr"].append((MV is not None, _scaled_gram_min_eig(V, MV)))
-            return orig(V, MV=MV)
+        def tallqr(V, *args, **kwargs):
+            # second argument: M V (tensor) or M itself (operator), positional or by keyword - only inspected, passed on as is
+            second = args[0] if args else (list(kwargs.values())[0] if kwargs else None)
+            log["qr"].append((second is not None, _scaled_gram_min_eig(V, second)))
+            return orig(V, *args, **kwargs)
         return tallqr
 
     def w_method(name):
@@ -303,6 +333,8 @@ def _scaled_gram_min_eig(V, MV):
     """smallest eigenvalue of the column-scaled Gram matrix V^H M V that the Cholesky-based QR is about to factor
     (1 = perfectly conditioned; the loss of orthogonality of a one-pass Cholesky QR is about eps / this number)"""
     try:
+        if MV is not None and not isinstance(MV, torch.Tensor):
+            MV = MV.mm(V)          # the metric was given as an operator
         G = torch.matmul(V.transpose(-2, -1).conj(), V if MV is None else MV)
         d = torch.diagonal(G, dim1=-2, dim2=-1).real
         if not bool((d > 0).all()):
@@ -462,7 +494,7 @@ def run_symeig(desc, obs):
         w = torch.from_numpy(np.ascontiguousarray(w)).double()
         V = torch.from_numpy(np.ascontiguousarray(V)).to(dt)
         lam_max = float(w.abs().max())
-        scale = normA + lam_max * normM
+        scale = max(normA + lam_max * normM, 1e-30)
         dense_tol = 2000 * EPS * n * scale * kM + 1e-300
         dav_tol = 10 * math.sqrt(n) * min_eps if method == "davidson" else 0.0
         tol_val = dense_tol + dav_tol
@@ -476,7 +508,7 @@ def run_symeig(desc, obs):
                 width = max(width, cw)
             tol_val += width
         tol_res = dense_tol + dav_tol
-        tol_orth = 1e-8 if method == "davidson" else 2000 * EPS * n * kM
+        tol_orth = 1e-7 if method == "davidson" else 2000 * EPS * n * kM
         sel = slice(0, neig) if low else slice(n - neig, n)
         wsel = w[sel]
         Eb, Xb = Ef[b], Xf[b]
@@ -626,7 +658,7 @@ def run_svd(desc, obs):
     r_eig = 10 * math.sqrt(p) * 1e-6 if dav else 0.0     # residual bound of the eigenproblem on A^H A (davidson's stopping test)
     base = 2000 * EPS * max(m, n)
     tol_s = base * smax * kap + r_eig / smin
-    tol_orth_eig = 1e-8 if dav else base
+    tol_orth_eig = 1e-7 if dav else base
     tol_orth_der = base * kap ** 2 + 4 * r_eig / smin ** 2 + tol_orth_eig * kap ** 2
     tol_av = base * smax * kap + 2 * r_eig / smin
     tol_rec = base * smax * kap ** 2 + 4 * r_eig * smax / smin ** 2 + tol_orth_eig * smax * kap
